@@ -387,7 +387,7 @@ def i_ROR(i, fmap):
     if shift._is_cst:
         result, cout = ROR_C(fmap(op1), shift.value)
     else:
-        result, cout = ror(op1, op2), top(1)
+        result, cout = ror(fmap(op1), shift), top(1)
     fmap[dest] = stst(cond, result, fmap(dest))
     if dest == pc:
         fmap[pc_] = fmap(pc)
